@@ -1,7 +1,7 @@
 (* Model/Metadata.v — C15: gapic/schema/api.py: API.gapic_metadata; gapic/schema/wrappers.py: Service.client_name,
    async_client_name, is_internal, Method.client_method_name, legacy_flattened_fields, Field.name;
-   the METHOD_TO_PARAMS block of templates/scripts/fixup_%name_%version_keywords.py.j2 (jinja2 sort / unique
-   with their default case-insensitive keys).  Definitions only.
+   the METHOD_TO_PARAMS block of templates/scripts/fixup_%name_%version_keywords.py.j2 (jinja2 sort with its default
+   case-insensitive key, unique with case_sensitive=True).  Definitions only.
    kwlist and RESERVED_NAMES are regenerated from /repo and the interpreter on every run (Gen/C15Gen.v). *)
 From GV Require Import Base.Str Model.Case Gen.C15Gen.
 
@@ -73,7 +73,7 @@ Definition iam_params : list (string * list string) :=
 Definition ci (r : rpc) : string := lower (r_name r).
 Definition params_of (r : rpc) : list string := map (field_pyname (r_pp r)) (legacy_flattened (r_fields r)).
 (* svcs in the order of api.services.values() *)
-Definition listed_rpcs (svcs : list svc) : list rpc := unique_by ci (sort_by ci (flat_map s_rpcs svcs)).
+Definition listed_rpcs (svcs : list svc) : list rpc := unique_by r_name (sort_by ci (flat_map s_rpcs svcs)).
 Definition method_to_params (add_iam : bool) (svcs : list svc) : list (string * list string) :=
   map (fun r => (snake (r_name r), params_of r)) (listed_rpcs svcs) ++ (if add_iam then iam_params else []).
 
